@@ -1154,8 +1154,14 @@ def run(ctx: Ctx) -> None:
             judge(ctx, batch, "random")
             batch = []
     judge(ctx, batch, "random")
+    seen = {v.clause for v in ctx.violations}
     for (clause, detail) in named_model:
-        ctx.violation(clause, NAMED[clause], detail, "model")
+        if clause in seen:
+            ctx.violation(clause, NAMED[clause], detail, "model")
+        else:
+            # the as-coded model exhibits the deviation but no execution of the code did (e.g. the code
+            # was repaired): the model no longer mirrors the code - a refinement matter, not a violation
+            ctx.drift(f"model-deviation-not-observed-in-code:{clause}")
     ctx.evaluations = ctx.traces
     ctx.extra["replay_action_counts"] = dict(ctx.action_cover)
     loop.uninstall()
